@@ -92,7 +92,8 @@ func c10ApplyOp(s *scen, op int) (bool, error) {
 	case "S6b":
 		tx = s.qiSpendDenom(s.q[0], 6, 0, s.q[2].Addr.Bytes(), 5)
 	case "S3":
-		tx = s.qiSpendDenom(s.q[0], 3, 0, s.q[1].Addr.Bytes(), 2)
+		// two outputs (denominations 2 and 1, to two owners): a block that creates several outputs
+		tx = s.qiSpendSplit(s.q[0], 3, s.q[1].Addr, 2, s.q[2].Addr, 1)
 	case "G":
 		// spend the lowest-denomination unlocked output owned by q1 (created by an earlier spend)
 		for d := uint8(1); d <= 6 && tx == nil; d++ {
